@@ -142,55 +142,15 @@ theorem matchCase_typed_concrete (D : Decls) (b : Bool) (dyn : Option Dyn) (ty :
   | nil => simp [concreteTy] at h
   | empty => simp [concreteTy] at h
 
-/-- a default clause never matches a type -/
-theorem defaultClause_empty : ∀ (cs : List (List α)) (k i : Nat), defaultClause cs k = some i →
-    k ≤ i ∧ cs.getD (i - k) [] = [] := by
-  intro cs
-  induction cs with
-  | nil => intro k i h; simp [defaultClause] at h
-  | cons c cs ih =>
-    intro k i h
-    unfold defaultClause at h
-    by_cases hc : c.isEmpty = true
-    · simp only [hc, if_true, Option.some.injEq] at h
-      subst h
-      exact ⟨Nat.le_refl _, by simpa using hc⟩
-    · simp only [hc] at h
-      obtain ⟨hle, hg⟩ := ih (k + 1) i h
-      refine ⟨by omega, ?_⟩
-      have : i - k = (i - (k + 1)) + 1 := by omega
-      rw [this]
-      simpa using hg
+/-- without the swap the pre-order pass leaves the clause list in source order -/
+theorem clauseOrder_noswap (cs : List (List α)) : clauseOrderY false cs = List.range cs.length := by
+  unfold clauseOrderY
+  cases defaultClause cs 0 <;> simp
 
-theorem firstInOrder_cons (mt : α → Bool) (cs : List (List α)) (k : Nat) (ks : List Nat) :
-    firstInOrder mt cs (k :: ks) = if (cs.getD k []).any mt then some k else firstInOrder mt cs ks := rfl
-
-theorem firstInOrder_append (mt : α → Bool) (cs : List (List α)) : ∀ (a b : List Nat),
-    firstInOrder mt cs (a ++ b) = (match firstInOrder mt cs a with | some i => some i | none => firstInOrder mt cs b) := by
-  intro a
-  induction a with
-  | nil => intro b; rfl
-  | cons k ks ih =>
-    intro b
-    rw [List.cons_append, firstInOrder_cons, firstInOrder_cons]
-    by_cases hc : (cs.getD k []).any mt = true
-    · rw [if_pos hc, if_pos hc]
-    · rw [if_neg hc, if_neg hc]; exact ih b
-
-theorem firstInOrder_filter (mt : α → Bool) (cs : List (List α)) (i : Nat) (hi : (cs.getD i []).any mt = false) :
-    ∀ (l : List Nat), firstInOrder mt cs (l.filter (fun k => k != i)) = firstInOrder mt cs l := by
-  intro l
-  induction l with
-  | nil => rfl
-  | cons k ks ih =>
-    by_cases hk : k = i
-    · subst hk
-      simp only [List.filter_cons, bne_self_eq_false, Bool.false_eq_true, if_false]
-      rw [ih, firstInOrder_cons, hi]
-      rfl
-    · have : (k != i) = true := by simpa using hk
-      simp only [List.filter_cons, this, if_true]
-      rw [firstInOrder_cons, firstInOrder_cons, ih]
+/-- testing the clauses in source order: the first matching clause -/
+theorem firstInOrder_source (mt : α → Bool) (cs : List (List α)) :
+    firstInOrder mt cs (List.range cs.length) = firstClause mt cs 0 := by
+  rw [List.range_eq_range', firstInOrder_range mt cs cs.length 0 (by simp)]; simp
 
 theorem selLegal_agree (F : Facts) (D : Decls) (t : Nat) (m : String) (hsel : selectY F D t m = select D t m) :
     selLegal .yaegi F D t true m = selLegal .go F D t true m := by
